@@ -297,6 +297,14 @@ impl DatabaseCheckpoint {
 				.ok_or_else(|| Error::Other("Invalid SSTable path".to_string()))?;
 			let dest_path = dest_dir.join(filename);
 
+			// A file left there by an earlier checkpoint into the same directory
+			// may be a hard link of `source_path` itself: hard_link would fail and
+			// the fallback copy would truncate the shared inode, i.e. the live
+			// table. Start from a clean destination.
+			if dest_path.exists() {
+				fs::remove_file(&dest_path).map_err(|e| Error::Io(Arc::new(e)))?;
+			}
+
 			// Create hard link if possible (faster), otherwise copy
 			if fs::hard_link(&source_path, &dest_path).is_err() {
 				fs::copy(&source_path, &dest_path).map_err(|e| Error::Io(Arc::new(e)))?;
@@ -451,6 +459,12 @@ impl DatabaseCheckpoint {
 			let dest_path = dest.join(entry.file_name());
 
 			if source_path.is_file() {
+				// Never copy onto an existing file: it may be a hard link of the
+				// source, and the copy would truncate the inode both names share.
+				if dest_path.exists() {
+					fs::remove_file(&dest_path).map_err(|e| Error::Io(Arc::new(e)))?;
+				}
+
 				// Create hard link if possible, otherwise copy
 				if fs::hard_link(&source_path, &dest_path).is_err() {
 					fs::copy(&source_path, &dest_path).map_err(|e| Error::Io(Arc::new(e)))?;
